@@ -44,6 +44,12 @@ def run(ctx) -> None:
     den = conf.func(CLS + "defaultEnvironment")
     for f in (efn, ewn, den):
         ctx.analysed(f)
+    # roles of the locals of environmentWithName (by definition, not by spelling)
+    _r = [r.value.id for r in source.walk_own(ewn) if isinstance(r, ast.Return) and isinstance(r.value, ast.Name)]
+    ENV = _r[-1] if _r else "environment"
+    DEFENV = match.role(ewn, lambda v: isinstance(v, ast.Call) and last_attr(v) == "defaultEnvironment", "default_env")
+    NAMED = match.role(ewn, lambda v: isinstance(v, ast.Call) and last_attr(v) == "get_environment", "flowir_env_vars")
+    LBL = match.role(ewn, lambda v: "LabelEnvironmentDefaults" in source.src(v), "lbl_defaults")
 
     # ---------------- R1 -------------------------------------------------------------------------------
     n_reads = 0
@@ -66,7 +72,7 @@ def run(ctx) -> None:
                 loops = [a for a in source.ancestors(n) if isinstance(a, ast.For) and isinstance(a.target, ast.Name) and a.target.id == v]
                 if loops and isinstance(loops[0].iter, ast.Name):
                     vals = match.assigned_value(fn, loops[0].iter.id)
-                    if any("split" in source.src(x) and ("lbl_defaults" in source.src(x) or "DEFAULTS" in source.src(x)) for x in vals):
+                    if any("split" in source.src(x) and (LBL in source.names_in(x) or "DEFAULTS" in source.src(x)) for x in vals):
                         form = "a: variable imported by name through the environment's DEFAULTS list"
             # (b) search-path copy for interpreters
             pc = source.parent(p) if isinstance(p, ast.Attribute) and p.attr == "copy" else None
@@ -113,7 +119,7 @@ def run(ctx) -> None:
         if isinstance(inner, ast.Name):      # value = expand_vars(..); os.path.expandvars(value)
             inners = match.assigned_value(ewn, inner.id) or [inner]
         ok = all(isinstance(i, ast.Call) and last_attr(i) == "expand_vars" and len(i.args) == 2 and isinstance(i.args[1], ast.Name)
-                 and i.args[1].id == "environment" for i in inners)
+                 and i.args[1].id == ENV for i in inners)
         ctx.ob("C17.R1-launch-env-reads", c, ok, "values are expanded first from the environment itself, then from the launch environment" if ok else
                "os.path.expandvars is applied before/without expanding from the environment's own variables")
         exp = match.test_nodes(CFG(ewn), lambda t: "T" if isinstance(t, ast.Name) and t.id == "expand" else None)
@@ -136,7 +142,7 @@ def run(ctx) -> None:
         ctxarg = c.args[1] if len(c.args) > 1 else next((k.value for k in c.keywords if k.arg == "environment"), None)
         subj = c.args[0] if c.args else None
         form = None
-        if isinstance(ctxarg, ast.Name) and ctxarg.id == "environment":
+        if isinstance(ctxarg, ast.Name) and ctxarg.id == ENV:
             form = "the environment's own variables"
         elif isinstance(ctxarg, ast.Dict) and len(ctxarg.keys) == 1 and isinstance(ctxarg.keys[0], ast.Name):
             k = ctxarg.keys[0].id
@@ -146,7 +152,7 @@ def run(ctx) -> None:
                 # a local holding launch values, indexed by the same variable
                 v_ok = True
             s_ok = isinstance(subj, ast.Subscript) and isinstance(subj.slice, ast.Name) and subj.slice.id == k \
-                and isinstance(subj.value, ast.Name) and subj.value.id == "environment"
+                and isinstance(subj.value, ast.Name) and subj.value.id == ENV
             if v_ok and s_ok:
                 form = "the launch value of the same variable (self-reference such as PATH: /x:$PATH)"
         ctx.ob("C17.R5-expansion-context", c, form is not None,
@@ -183,10 +189,10 @@ def run(ctx) -> None:
     # ---------------- R2 -------------------------------------------------------------------------------
     cfg = CFG(ewn)
     ctx.paths += cfg.paths_count()
-    upd_default = match.nodes_calling(cfg, lambda c: last_attr(c) == "update" and dotted(c.func.value) == "environment" and c.args
-                                      and isinstance(c.args[0], ast.Name) and c.args[0].id == "default_env")
-    upd_named = match.nodes_calling(cfg, lambda c: last_attr(c) == "update" and dotted(c.func.value) == "environment" and c.args
-                                    and isinstance(c.args[0], ast.Name) and c.args[0].id == "flowir_env_vars")
+    upd_default = match.nodes_calling(cfg, lambda c: last_attr(c) == "update" and dotted(c.func.value) == ENV and c.args
+                                      and isinstance(c.args[0], ast.Name) and c.args[0].id == DEFENV)
+    upd_named = match.nodes_calling(cfg, lambda c: last_attr(c) == "update" and dotted(c.func.value) == ENV and c.args
+                                    and isinstance(c.args[0], ast.Name) and c.args[0].id == NAMED)
     t_default = []
     for n in cfg.nodes:
         if n.kind == "test" and isinstance(n.ast, ast.Compare) and isinstance(n.ast.ops[0], ast.In) and isinstance(n.ast.left, ast.Name) \
@@ -204,8 +210,8 @@ def run(ctx) -> None:
                "the default environment is added for a named (or the empty 'none') environment too")
     if not upd_default:
         ctx.ob("C17.R2-branch-table", ewn, False, "the default environment is never added", construct="environment.update(default_env) (missing)")
-    all_updates = match.nodes_calling(cfg, lambda c: last_attr(c) in ("update", "__setitem__") and dotted(c.func.value) == "environment")
-    lbl_tests = match.test_nodes(cfg, lambda t: "T" if (isinstance(t, ast.Compare) and isinstance(t.ops[0], ast.In) and "lbl_defaults" in source.src(t.left)) else None)
+    all_updates = match.nodes_calling(cfg, lambda c: last_attr(c) in ("update", "__setitem__") and dotted(c.func.value) == ENV)
+    lbl_tests = match.test_nodes(cfg, lambda t: "T" if (isinstance(t, ast.Compare) and isinstance(t.ops[0], ast.In) and LBL in source.names_in(t.left)) else None)
     for (tn, lab) in t_none:
         succ = [m for (m, l2) in tn.succ if l2 == lab]
         stop = [n for n, _ in lbl_tests]
@@ -217,14 +223,14 @@ def run(ctx) -> None:
         ok = match.only_via_edges(cfg, u, [(n, "F") for n, _ in t_default]) and match.only_via_edges(cfg, u, [(n, "F") for n, _ in t_none])
         ctx.ob("C17.R2-branch-table", u.ast, ok, "a named environment comes from get_environment(name)" if ok else
                "the named-environment update is reachable for the default/'none' selection")
-    src_named = match.assigned_value(ewn, "flowir_env_vars")
+    src_named = match.assigned_value(ewn, NAMED)
     ok = bool(src_named) and all(isinstance(v, ast.Call) and last_attr(v) == "get_environment" for v in src_named)
     ctx.ob("C17.R2-branch-table", src_named[0] if src_named else ewn, ok, "named environments are read through FlowIRConcrete.get_environment" if ok else
            "flowir_env_vars has another source than get_environment")
     # named branch starts from the system variables only
-    starts = [n for n in cfg.nodes if n.kind == "stmt" and isinstance(n.ast, ast.Assign) and any(isinstance(t, ast.Name) and t.id == "environment" for t in n.ast.targets)]
+    starts = [n for n in cfg.nodes if n.kind == "stmt" and isinstance(n.ast, ast.Assign) and any(isinstance(t, ast.Name) and t.id == ENV for t in n.ast.targets)]
     after_table = cfg.reach([n for n, _ in lbl_tests]) if lbl_tests else set()
-    FOREIGN = ("os.environ", "default_env", "defaultEnvironment", "get_environment", "flowir_env_vars")
+    FOREIGN = ("os.environ", DEFENV, "defaultEnvironment", "get_environment", NAMED)
 
     def rebuilt_from_itself(v: ast.AST) -> bool:
         """after the branch table the dictionary may be rebuilt (expanded copy) as long as no new source flows in"""
@@ -252,7 +258,7 @@ def run(ctx) -> None:
                 if vals and all(from_system_vars(x, depth + 1) for x in vals):
                     return True
         return False
-    okb = all(from_system_vars(s.ast.value) or source.src(s.ast.value) == "environment.copy()" or isinstance(s.ast.value, ast.DictComp)
+    okb = all(from_system_vars(s.ast.value) or source.src(s.ast.value) == ENV + ".copy()" or isinstance(s.ast.value, ast.DictComp)
               or (s.id in after_table and rebuilt_from_itself(s.ast.value))
               for s in starts)
     ctx.ob("C17.R2-branch-table", ewn, okb, "the environment always starts from the runtime's system variables" if okb else
@@ -270,9 +276,18 @@ def run(ctx) -> None:
     ctx.analysed(ge)
     c2 = CFG(ge)
     hs2 = [h for h in ast.walk(ge) if isinstance(h, ast.ExceptHandler)]
+    # roles in get_environment: PENV / PDEF = the locals read with get_platform_environment(platform=platform / =LabelDefault);
+    # GENV = the returned dictionary
+    def _gpe(v, default):
+        return isinstance(v, ast.Call) and last_attr(v) == "get_platform_environment" and any(
+            k.arg == "platform" and (((dotted(k.value) or "").endswith("LabelDefault")) == default) for k in v.keywords)
+    PENV = match.role(ge, lambda v: _gpe(v, False), "platform_env")
+    PDEF = match.role(ge, lambda v: _gpe(v, True), "platform_default")
+    _gr = [r.value.id for r in source.walk_own(ge) if isinstance(r, ast.Return) and isinstance(r.value, ast.Name)]
+    GENV = _gr[-1] if _gr else "environment"
     # both missing => raise: in the handler of the default-platform lookup, platform_env is None => raise
     pe_tests = match.test_nodes(c2, lambda t: "T" if (match.compare_parts(t) and isinstance(match.compare_parts(t)[0], ast.Name)
-                                                      and match.compare_parts(t)[0].id == "platform_env" and isinstance(match.compare_parts(t)[1], ast.IsNot)) else None)
+                                                      and match.compare_parts(t)[0].id == PENV and isinstance(match.compare_parts(t)[1], ast.IsNot)) else None)
     ok = False
     for (tn, lab) in pe_tests:
         succ = [m for (m, l2) in tn.succ if l2 == match.other(lab)]
@@ -283,18 +298,18 @@ def run(ctx) -> None:
            construct="neither platform defines it => raise FlowIREnvironmentUnknown")
 
     # ---------------- R3 -------------------------------------------------------------------------------
-    envdefs = match.assigned_value(ge, "environment")
-    ok = any(isinstance(v, ast.Name) and v.id == "platform_default" for v in envdefs)
-    ups = [c for c in source.calls_in(ge) if last_attr(c) == "update" and dotted(c.func.value) == "environment"]
-    ok = ok and len(ups) == 1 and "platform_env" in source.src(ups[0].args[0]) and "platform_default" not in source.src(ups[0].args[0])
+    envdefs = match.assigned_value(ge, GENV)
+    ok = any(isinstance(v, ast.Name) and v.id == PDEF for v in envdefs)
+    ups = [c for c in source.calls_in(ge) if last_attr(c) == "update" and dotted(c.func.value) == GENV]
+    ok = ok and len(ups) == 1 and PENV in source.names_in(ups[0].args[0]) and PDEF not in source.names_in(ups[0].args[0])
     ctx.ob("C17.R3-layering", ups[0] if ups else ge, ok, "environment = default platform's, updated with the selected platform's" if ok else
            "the layering of get_environment is no longer 'default platform first, selected platform on top'")
-    pdv = match.assigned_value(ge, "platform_default")
+    pdv = match.assigned_value(ge, PDEF)
     ok = any(isinstance(v, ast.Call) and last_attr(v) == "get_platform_environment" and any(
         k.arg == "platform" and (dotted(k.value) or "").endswith("LabelDefault") for k in v.keywords) for v in pdv)
     ctx.ob("C17.R3-layering", pdv[0] if pdv else ge, ok, "platform_default is read from the default platform" if ok else
            "platform_default is not read from the default platform")
-    pev = match.assigned_value(ge, "platform_env")
+    pev = match.assigned_value(ge, PENV)
     ok = any(isinstance(v, ast.Call) and last_attr(v) == "get_platform_environment" and any(
         k.arg == "platform" and isinstance(k.value, ast.Name) and k.value.id == "platform" for k in v.keywords) for v in pev)
     ctx.ob("C17.R3-layering", pev[0] if pev else ge, ok, "platform_env is read from the selected platform" if ok else
